@@ -173,29 +173,19 @@ theorem flush_holding (acts : List Act) (h : Nat) (hno : NoHolderFrom acts (h+1)
     simp only [heldAt_holding hh] at hf
     obtain ⟨c0, t0, i0⟩ := flush_state hh (.propagate x.seq)
     generalize resetBusy (emit (setHeld ps h none) (.propagate x.seq)) h = ps0 at hf c0 t0 i0
-    rw [procSeq.eq_def] at hf
-    cases n with
-    | zero => simp only at hf; cases hf; exact ⟨i0, Or.inr ⟨by simp, Or.inr t0⟩⟩
-    | succ n =>
-      simp only at hf
-      rw [procEv.eq_def] at hf
-      cases n with
-      | zero => simp only at hf; cases hf; exact ⟨i0, Or.inr ⟨by simp, Or.inr t0⟩⟩
-      | succ n =>
-        simp only at hf
-        cases hd : doActs n acts (h+1) (.reg x) ps0 with
-        | mk ps1 r1 =>
-          obtain ⟨c1, i1, t1⟩ := (post_run acts n).1 _ _ _ _ _ hno c0 hd
-          rw [hd] at hf
-          rcases t1 with ⟨rfl, t⟩ | ⟨l, rfl, t, _⟩ | ⟨w, rfl, t⟩
-          · simp only at hf; cases hf
-            refine ⟨by simp [emit, i1, i0], Or.inl ⟨rfl, clean_emit c1 _, Or.inl ?_⟩⟩
-            simp [emit, t, t0]
-          · simp only [busyTotal_clean c1, ↓reduceIte] at hf; cases hf
-            refine ⟨by simp [i1, i0], Or.inl ⟨rfl, c1, Or.inr ?_⟩⟩
-            simp [t, fin_toks, t0]
-          · simp only at hf; cases hf
-            exact ⟨by simp [i1, i0], Or.inr ⟨by simp, Or.inr (by simp [t, t0])⟩⟩
+    cases hd : doActs n acts (h+1) (.reg x) ps0 with
+    | mk ps1 r1 =>
+      obtain ⟨c1, i1, t1⟩ := (post_run acts n).1 _ _ _ _ _ hno c0 hd
+      rw [hd] at hf
+      rcases t1 with ⟨rfl, t⟩ | ⟨l, rfl, t, _⟩ | ⟨w, rfl, t⟩
+      · simp only at hf; cases hf
+        refine ⟨by simp [emit, i1, i0], Or.inl ⟨rfl, clean_emit c1 _, Or.inl ?_⟩⟩
+        simp [emit, t, t0]
+      · simp only at hf; cases hf
+        refine ⟨by simp [i1, i0], Or.inl ⟨rfl, c1, Or.inr ?_⟩⟩
+        simp [t, fin_toks, t0]
+      · simp only at hf; cases hf
+        exact ⟨by simp [i1, i0], Or.inr ⟨by simp, Or.inr (by simp [t, t0])⟩⟩
 
 /-! ### the chain: at most one holder (at position `h`; `h = acts.length` when there is none) -/
 
@@ -932,21 +922,18 @@ theorem timeout_flushes (acts : List Act) (h : Nat) (hch : Chain acts h)
         rw [flushAt.eq_def] at hfl; simp only [heldAt_holding hh] at hfl
         obtain ⟨c0, _, _⟩ := flush_state hh (.propagate x.seq)
         generalize resetBusy (emit (setHeld ps h none) (.propagate x.seq)) h = ps0 at hfl c0
-        rw [procSeq.eq_def] at hfl; simp only at hfl
-        rw [procEv.eq_def] at hfl; simp only at hfl
         have hlen : h < acts.length := by
           rcases Nat.lt_or_ge h acts.length with hl | hg
           · exact hl
           · rw [List.getElem?_eq_none_iff.2 hg] at hget; cases hget
-        have hnh := (post_total acts n4).1 (h+1) (.reg x) ps0 hno c0 (by omega) (by simp [kidsOfEv]; omega)
-        cases hd : doActs n4 acts (h+1) (.reg x) ps0 with
+        have hnh := (post_total acts (n4+2)).1 (h+1) (.reg x) ps0 hno c0 (by omega) (by simp [kidsOfEv]; omega)
+        cases hd : doActs (n4+2) acts (h+1) (.reg x) ps0 with
         | mk ps2 r2 =>
           rw [hd] at hfl hnh; simp only at hnh
-          obtain ⟨c2, _, _⟩ := (post_run acts n4).1 _ _ _ _ _ hno c0 hd
           cases r2 with
           | halt w => exact absurd rfl (hnh w)
           | passed => simp only at hfl; cases hfl; exact hr rfl
-          | stopped l => simp only [busyTotal_clean c2, ↓reduceIte] at hfl; cases hfl; exact hr rfl
+          | stopped l => simp only at hfl; cases hfl; exact hr rfl
   obtain ⟨ps1, hfl, hc1, hi1, ht1⟩ := hflush
   refine ⟨ps1, ?_, hc1, hi1, ht1⟩
   rw [procEv.eq_def]; simp only
